@@ -26,6 +26,7 @@ import Props.C11
 import Props.C06
 import Props.C07
 import PysersicModel.Prob.Fitter
+import Std.Data.String.ToNat
 
 namespace Pysersic.Props.C05
 open Pysersic Pysersic.Prob Pysersic.Render Real
@@ -136,6 +137,61 @@ theorem one_likelihood_site (entries : List (String × Prob.Dist ℝ)) (loss : L
 theorem model_site (entries : List (String × Prob.Dist ℝ)) (loss : LossKind) (suffix : String) :
     ("model" ++ suffix, SiteKind.deterministic) ∈ fitterSites K entries loss suffix true := by
   simp [fitterSites]
+
+
+/-! ### multi-source keys: no site feeds two sources -/
+
+/-- a string is split uniquely at its first underscore -/
+theorem split_first_underscore (a b x y : List Char) (ha : '_' ∉ a) (hb : '_' ∉ b)
+    (h : a ++ '_' :: x = b ++ '_' :: y) : a = b ∧ x = y := by
+  induction a generalizing b with
+  | nil =>
+    cases b with
+    | nil => simpa using h
+    | cons c b' =>
+      simp only [List.nil_append, List.cons_append, List.cons.injEq] at h
+      exact absurd h.1.symm (fun e => hb (by simp [e]))
+  | cons c a' ih =>
+    cases b with
+    | nil =>
+      simp only [List.nil_append, List.cons_append, List.cons.injEq] at h
+      exact absurd h.1 (fun e => ha (by simp [e]))
+    | cons c' b' =>
+      simp only [List.cons_append, List.cons.injEq] at h
+      have ha' : '_' ∉ a' := fun e => ha (by simp [e])
+      have hb' : '_' ∉ b' := fun e => hb (by simp [e])
+      obtain ⟨e1, e2⟩ := ih b' ha' hb' h.2
+      exact ⟨by rw [h.1, e1], e2⟩
+
+/-- decimal numerals contain no underscore -/
+theorem no_underscore_in_repr (j : ℕ) : '_' ∉ (Nat.repr j).toList := by
+  intro h
+  have hd : ('_' : Char).isDigit = true := by
+    apply Nat.isDigit_of_mem_toDigits (b := 10) (n := j) (by decide) (by decide)
+    simpa [Nat.repr] using h
+  exact absurd hd (by decide)
+
+/-- **the key `p_j<suffix>` read by `render_for_model` determines both the parameter and the source**:
+for any parameter names p, p' (underscores allowed), source indices j, j' and one suffix,
+p ++ "_" ++ j ++ suffix = p' ++ "_" ++ j' ++ suffix implies p = p' and j = j' — no site feeds two sources -/
+theorem multi_key_injective (p p' suffix : String) (j j' : ℕ)
+    (h : p ++ "_" ++ toString j ++ suffix = p' ++ "_" ++ toString j' ++ suffix) : p = p' ∧ j = j' := by
+  have h1 := congrArg String.toList h
+  simp only [String.toList_append, List.append_left_inj] at h1
+  -- reverse: digits first, then the underscore, then the reversed parameter name
+  have h2 := congrArg List.reverse h1
+  simp only [List.reverse_append] at h2
+  have hj : (toString j).toList = (Nat.repr j).toList := rfl
+  have hj' : (toString j').toList = (Nat.repr j').toList := rfl
+  have hu : ("_" : String).toList = ['_'] := rfl
+  rw [hj, hj', hu] at h2
+  simp only [List.reverse_cons, List.reverse_nil, List.nil_append, List.append_assoc, List.singleton_append] at h2
+  have := split_first_underscore _ _ _ _
+    (by simpa using no_underscore_in_repr j) (by simpa using no_underscore_in_repr j') h2
+  obtain ⟨e1, e2⟩ := this
+  have e1' : (Nat.repr j).toList = (Nat.repr j').toList := List.reverse_injective e1
+  have e2' : p.toList = p'.toList := List.reverse_injective e2
+  exact ⟨String.toList_injective e2', Nat.repr_injective (String.toList_injective e1')⟩
 
 /-! ### suffix stripping -/
 
